@@ -77,7 +77,19 @@ def workloads(tier):
     add('two creates in one new directory, then a failing patch there', [[(tq.t_create, 'x/y/n', False), (tq.t_create, 'x/y/m', False), (tq.t_mod, 'f')], [(tq.t_create_over, 'x/y/n'), (tq.t_mod, 'd/g')]], both)
     add('directory emptied by one worker, failing patch of another in it', [[(tq.t_delete, 'd/g', False)], [(tq.t_delete, 'd/h', False), (tq.t_mod, 'f')], [(tq.t_missing, 'd/n'), (tq.t_mod, 'e/i')]])
     # all-success with backups (save order between workers)
+    add('fail then rename onto an empty file', [[(tq.t_mod, 'e/i')], [(tq.t_modfail, 'd/g')], [(tq.t_rename_onto_empty, 'f', 'z', False)]], both)
+    add('fail then rename of a missing file', [[(tq.t_modfail, 'd/g')], [(tq.t_rename_missing, 'q', 'n')]])
     add('success, three workers', [[(tq.t_mod, 'f'), (tq.t_mod, 'd/g')], [(tq.t_mod, 'd/h'), (tq.t_mode, 'f', True)]], ({'backup': 'always'},))
+    # one file under two spellings (./f in a -p0 entry, f elsewhere): one worker, one copy
+    for label, s, cfg in list(W[:6]):
+        for i in range(len(s)):
+            v = [tq.Patch(p.fps, p.reverse, p.strip, p.empty) for p in s]
+            v[i] = tq.Patch(s[i].fps, s[i].reverse, 'dot', s[i].empty)
+            W.append((label + ' [patch %d spelled ./name]' % i, v, cfg))
+    # hand-written workspaces: links, patches that cannot be loaded behind/before the failing one, .pc unusable
+    import rawcases
+    for c in rawcases.for_prop('C06'):
+        W.append((c.label, c, {'backup': 'always' if 'pc-is-a-file' in c.tags else 'never', 'quiet': True}))
     return m0, W
 
 
